@@ -6,7 +6,7 @@ use std::io::{ErrorKind, Write};
 use std::str::FromStr;
 
 /// a minimal well-formed entry; `val` goes into COMMENT
-fn entry(val: &str, tag: u8) -> Vec<u8> {
+pub fn entry(val: &str, tag: u8) -> Vec<u8> {
     let mut t: Vec<u8> = Vec::new();
     for q in REQUIRED.iter() {
         t.extend_from_slice(NAMES[*q].as_bytes());
